@@ -17,7 +17,7 @@
  R06.7 filename/extension: filename = path[rfind('/')+1..]; extension is computed from the filename only.
 """
 import os
-from ..terms import get_tracer, fmt, strip, short, walk
+from ..terms import get_tracer, fmt, strip, short, walk, passthrough_of
 from ..inter import Inter
 from ..panics import Discharger, inventory, load_records, norm, unchecked_arith
 from ..pathrules import sname, peel
@@ -264,8 +264,16 @@ def single_impl_rules(facts, rep, D):
             tr = get_tracer(facts, b)
             cases = inter.ret_cases(b)
             ok = bool(cases)
+            own_err = ""
             for ct, _, bb in cases:
                 if inter.case_polarity(ct) == "err":
+                    # the only error of a wrapper is the shared implementation's (sync and async accept the same arguments)
+                    src_e = passthrough_of(norm(ct))
+                    while src_e[0] == "await":
+                        src_e = src_e[1]
+                    if not (src_e[0] == "call" and sname(src_e[1]) == internal):
+                        ok = False
+                        own_err = "the wrapper returns an error of its own (%s): " % fmt(norm(ct))[:50]
                     continue
                 v = ct
                 if v[0] == "agg" and v[2] == "Ok" and v[3]:
@@ -301,7 +309,7 @@ def single_impl_rules(facts, rep, D):
                     ok = ok and src[0] == "call" and sname(src[1]) == internal and src[2] and src[2][0][0] == "arg" and src[2][0][1] == 0
             n += 1
             rep.ob("R06.5", b.id, "%s delegates to %s on its own path%s" % (name, internal, " and keeps the filesystem" if wraps else ""), ok,
-                   "" if ok else (why_join if name == "join" and why_join else "") + " %s::%s does not (only) return %s(self.path, ..) wrapped with self.fs: path handling differs from the "
+                   "" if ok else own_err + (why_join if name == "join" and why_join else "") + " %s::%s does not (only) return %s(self.path, ..) wrapped with self.fs: path handling differs from the "
                    "single shared implementation" % (ty.split("::")[-1], name, internal), b.span)
         # root / is_root
         b = ms.get("root")
